@@ -91,7 +91,7 @@ def gen_(rng, i, tier):
         n = m.num_binary_variables
         form = rng.choice(["bool", "spin", "ones"])
         vals = [1] * n if form == "ones" else [rng.choice([0, 1] if form == "bool" else [1, -1]) for _ in range(n)]
-        return {"op": "convsol", "kind": kind, "terms": G.jraw(t), "vals": vals, "cont": rng.choice(["dict", "list", "tuple"]),
+        return {"op": "convsol", "kind": kind, "terms": G.jraw(t), "vals": vals, "cont": rng.choice(["dict", "list", "tuple", "odict"]),
                 "flag": rng.choice([None, True, False]), "remap": gen_remap(rng)}
     if r < 0.90:
         which = rng.choice(["Q", "h", "J"])
@@ -125,11 +125,24 @@ def apply_remap(obj, remap):
     labs = list(obj.mapping)
     perm = list(range(len(labs)))
     random.Random(remap["seed"]).shuffle(perm)
+    d = {l: p for l, p in zip(labs, perm)} if remap["how"] == "map" else {p: l for l, p in zip(labs, perm)}
+    HANDED.append((d, dict(d), remap["how"]))          # the caller's dictionary stays the caller's (see handed_over_changed)
     if remap["how"] == "map":
-        obj.set_mapping({l: p for l, p in zip(labs, perm)})
+        obj.set_mapping(d)
     else:
-        obj.set_reverse_mapping({p: l for l, p in zip(labs, perm)})
+        obj.set_reverse_mapping(d)
     return [[C.enc(l), p] for l, p in zip(labs, perm)]
+
+
+HANDED = []
+
+
+def handed_over_changed():
+    """the dictionaries given to set_mapping / set_reverse_mapping so far, compared with what they were; empties the list"""
+    bad = ["the dictionary passed to %s was changed afterwards: %r -> %r" % ("set_mapping" if how == "map" else "set_reverse_mapping", was, d)
+           for d, was, how in HANDED if d != was]
+    del HANDED[:]
+    return bad
 
 
 def build(kind, jt):
@@ -174,12 +187,16 @@ def run_impl(case):
             out["src_items"] = C.jterms(C.enc_terms(obj, sort_keys=False))
             out["remap"] = installed
             out["rmapping"] = [[k, C.enc(v)] for k, v in obj.reverse_mapping.items()]
+            out["handed"] = handed_over_changed()
             return out
         if op == "convsol":
             obj = build(case["kind"], case["terms"])
             installed = apply_remap(obj, case.get("remap"))
             vals = case["vals"]
             sol = dict(enumerate(vals)) if case["cont"] == "dict" else list(vals) if case["cont"] == "list" else tuple(vals)
+            if case["cont"] == "odict":        # a dict subclass is a dict
+                import collections
+                sol = collections.OrderedDict(enumerate(vals))
             snap = (C.snapshot(obj), C.snapshot(sol))
             r = obj.convert_solution(sol) if case["flag"] is None else obj.convert_solution(sol, case["flag"])
             if (C.snapshot(obj), C.snapshot(sol)) != snap:
@@ -297,6 +314,7 @@ def oracle(case, out):
             v.append("%s(%s) returned %s, documented type rule says %s" % (FN[fn], case["src"] or "dict", out["kind"], want))
     elif op == "method":
         mp = dict(out["mapping"])
+        v.extend(out.get("handed", []))
         if out.get("rmapping") is not None and {n_: l for l, n_ in out["mapping"]} != {n_: l for n_, l in out["rmapping"]}:
             v.append("reverse_mapping %r is not the inverse of mapping %r" % (out["rmapping"], out["mapping"]))
         src, dst = out["src_items"], out["terms"]
